@@ -555,6 +555,11 @@ impl<'l, Data> EventLoop<'l, Data> {
             }
         }
 
+        // An error does not stop the processing of the batch: the events that were collected
+        // (expired timers, edge-triggered readiness) would be lost for the other sources.
+        // The first error is reported once all events have been processed.
+        let mut first_error = None;
+
         for event in self.synthetic_events.drain(..).chain(events) {
             // Get the registration token associated with the event.
             let reg_token = event.token.inner.forget_sub_id();
@@ -579,7 +584,10 @@ impl<'l, Data> EventLoop<'l, Data> {
                     .inner
                     .pending_action
                     .replace(PostAction::Continue);
-                let mut ret = ret?;
+                let mut ret = ret.unwrap_or_else(|err| {
+                    first_error.get_or_insert(err);
+                    PostAction::Continue
+                });
                 if let PostAction::Continue = ret {
                     ret = pending_action;
                 }
@@ -590,7 +598,7 @@ impl<'l, Data> EventLoop<'l, Data> {
                             source = reg_token.get_id(),
                             "Postaction reregister for source"
                         );
-                        disp.reregister(
+                        if let Err(err) = disp.reregister(
                             &mut self.handle.inner.poll.borrow_mut(),
                             &mut self
                                 .handle
@@ -598,14 +606,16 @@ impl<'l, Data> EventLoop<'l, Data> {
                                 .sources_with_additional_lifecycle_events
                                 .borrow_mut(),
                             &mut TokenFactory::new(reg_token),
-                        )?;
+                        ) {
+                            first_error.get_or_insert(err);
+                        }
                     }
                     PostAction::Disable => {
                         trace!(
                             source = reg_token.get_id(),
                             "Postaction unregister for source"
                         );
-                        disp.unregister(
+                        if let Err(err) = disp.unregister(
                             &mut self.handle.inner.poll.borrow_mut(),
                             &mut self
                                 .handle
@@ -613,7 +623,9 @@ impl<'l, Data> EventLoop<'l, Data> {
                                 .sources_with_additional_lifecycle_events
                                 .borrow_mut(),
                             RegistrationToken::new(reg_token),
-                        )?;
+                        ) {
+                            first_error.get_or_insert(err);
+                        }
                     }
                     PostAction::Remove => {
                         trace!(source = reg_token.get_id(), "Postaction remove for source");
@@ -654,7 +666,10 @@ impl<'l, Data> EventLoop<'l, Data> {
             }
         }
 
-        Ok(())
+        match first_error {
+            Some(err) => Err(err),
+            None => Ok(()),
+        }
     }
 
     fn dispatch_idles(&mut self, data: &mut Data) {
